@@ -360,7 +360,49 @@ def k4e(cx):
             cx.check(res[0]["exc"] is not None and not got, None, construct=f"KernelDispatcher.__call__: {what}", detail="refused before the kernel is called", bad_detail="a positional argument is accepted / the kernel is called before the refusal", anchor="context::KernelDispatcher.__call__", sub="positional")
         else:
             cx.check(res[0]["exc"] is None and got == [((), dict(k))] and res[0]["result"] == "ret", None, construct=f"KernelDispatcher.__call__: {what}", detail="all named arguments forwarded unchanged, the kernel's result returned", bad_detail=f"keywords are not forwarded unchanged to the named kernel: {got!r}", anchor="context::KernelDispatcher.__call__", sub="forward")
-    cx.need(ncase >= 30, f"only {ncase} kernel-call cases")
+    # dispatcher: every KIND of argument reaches the kernel as the caller's own object (C17: arrays "as a pointer to
+    # their first element" -- of the caller's array, whatever its strides; a compacted temporary loses the kernel's writes)
+    from ..peval import Namespace as _NS
+
+    def _nd(tag, contiguous):
+        a = _Obj("ndarray", {"ndim": 1, "flags": _Obj("flags", {"c_contiguous": contiguous, "f_contiguous": contiguous, "contiguous": contiguous, "writeable": True, "__getitem__": _B("flags[]", lambda k_: contiguous if "CONTIG" in str(k_).upper() else True)}, name=f"{tag}.flags")}, name=tag)
+        a.pytag = "np.ndarray"
+        return a
+
+    I = Interp(m)
+    copies = []
+
+    def _copy(a, *r, **k):
+        c = _nd(f"copy-of({getattr(a, 'name', a)})", True)
+        copies.append(c)
+        return c
+
+    I.np = _NS("np", dict(I.np.table, ascontiguousarray=_B("np.ascontiguousarray", lambda a, *r, **k: a if (isinstance(a, _Obj) and a.attrs["flags"].attrs["c_contiguous"]) else _copy(a)),
+                          array=_B("np.array", _copy), copy=_B("np.copy", _copy), require=_B("np.require", _copy), asfortranarray=_B("np.asfortranarray", _copy)))
+    KD = I.global_lookup("context", "KernelDispatcher")
+    got = []
+    kern = _B("kernel", lambda *a, **k: (got.append((a, k)), "ret")[1])
+    d = I.call(KD, ["k", {"k": kern}], {})
+    vals = {"strided": _nd("a[1::2]", False), "dense": _nd("a", True), "xobj": _Obj("instance", {"_offset": 8, "_buffer": _Op("buffer")}, name="xobject"), "zero": 0.0, "negzero": -0.0, "one": 1, "flag": True, "none": None}
+    res = I.explore(lambda: I.call(I.getattr(d, "__call__"), [], dict(vals)), max_paths=4)
+    cx.recog(len(res) == 1, m.func("context::KernelDispatcher.__call__"), f"KernelDispatcher.__call__ (argument kinds): {len(res)} paths")
+    ncase += 1
+    why = ""
+    if res[0]["exc"] is not None:
+        e_ = res[0]["exc"]
+        if e_.etype in ("AttributeError", "NameError"):
+            raise AnalysisError(f"[K4e] KernelDispatcher.__call__ cannot be evaluated on the argument kinds: {e_.etype}: {e_.msg}")
+        why = f"raises {e_.etype}: {e_.msg}"
+    elif len(got) != 1 or got[0][0] or set(got[0][1]) != set(vals):
+        why = f"the kernel is called {len(got)} time(s) with {got!r}"
+    else:
+        for k_, v_ in vals.items():
+            g_ = got[0][1][k_]
+            if g_ is not v_ and not (isinstance(v_, float) and isinstance(g_, float) and repr(g_) == repr(v_)):
+                why = f"argument `{k_}` ({getattr(v_, 'name', v_)!r}) reaches the kernel as {getattr(g_, 'name', g_)!r}" + (": a temporary copy -- the kernel's writes never reach the caller's array and it reads compacted elements" if g_ in copies else "")
+                break
+    cx.check(not why, None, construct="KernelDispatcher.__call__: strided / dense numpy array, xobject, 0.0, -0.0, 1, True, None", detail="every named argument reaches the kernel as the caller's own object", bad_detail=why, anchor="context::KernelDispatcher.__call__", sub="identity")
+    cx.need(ncase >= 31, f"only {ncase} kernel-call cases")
 
 
 @rule("K6", ["C16"], "launch geometry: CUDA grid = ceil(n/block) blocks of block_size, OpenCL global size n; n resolved from the named argument")
